@@ -18,6 +18,10 @@ MEASURES = ['coinformation', 'interaction_information', 'total_correlation', 'du
 DISJOINT = {'entropy', 'total_correlation', 'dual_total_correlation', 'residual_entropy', 'caekl_mutual_information',
             'o_information', 'tse_complexity', 'cohesion'}
 
+# measures of the DISJOINT list that nevertheless accept overlapping / repeated / nested groups (CAEKL and entropy
+# reject a variable named twice: '`rvs` contained duplicates')
+OVERLAP_TOO = DISJOINT - {'caekl_mutual_information', 'entropy'}
+
 
 def get_func(dit, name):
     import dit.multivariate as mv
@@ -29,7 +33,8 @@ def get_func(dit, name):
 class C05(object):
     id = 'C05'
     rule = ("joint distributions of 2..5 variables with zeros; each measure with random groupings (disjoint where the "
-            "measure requires it, overlapping for co-information / interaction information / entropy), conditioning "
+            "measure requires it - CAEKL, entropy -, disjoint or sharing variables / repeated / nested for the others, incl. "
+            "lists in which different sub-lists of groups have the same union), conditioning "
             "subsets, k for cohesion, indices or names. Two legs: SYMBOLIC - the real function is executed with a "
             "linear-form entropy oracle and its exact rational coefficient vector is compared with the model's "
             "combination (one traced instance covers every table of that shape); NUMERIC - the float value vs the "
@@ -106,6 +111,42 @@ class C05(object):
             yield self.rand_case(rng)
         for c in self.gen_options(rng, tier):
             yield c
+        for c in self.gen_coincident(rng, tier):
+            yield c
+
+    def gen_coincident(self, rng, tier):
+        """Lists of groups in which different sub-lists of groups cover the same set of variables: every pair of a
+        'triangle' [[a,b],[b,c],[a,c]] has the same union, a group that is the union of two others, a group given
+        twice, a group contained in another.  A sum over the k-subsets of the GROUPS has one term per choice of
+        groups, also when two choices have the same union.  Every measure that accepts such lists, every seed, with
+        and without conditioning, by index or by name."""
+        names = [m for m in MEASURES if m not in DISJOINT or m in OVERLAP_TOO]
+        for rep in range(1 if tier == 'quick' else 20):
+            for name in names:
+                for shape in ('triangle', 'union', 'repeat', 'nested', 'repeat-pair'):
+                    d = self.rand_case(rng)
+                    while d['measure'] != name or d['n'] < 3:
+                        d = self.rand_case(rng)
+                    n = d['n']
+                    v = rng.sample(range(n), n)
+                    a, b, c = v[0], v[1], v[2]
+                    rest = v[3:]
+                    groups = {'triangle': [[a, b], [b, c], [a, c]],
+                              'union': [[a], [b], [a, b], [c]],
+                              'repeat': [[a], [a], [b]],
+                              'nested': [[a], [a, b], [a, b, c]],
+                              'repeat-pair': [[a, b], [c], [b, a]]}[shape]
+                    groups = [sorted(g) if rng.random() < 0.7 else g for g in groups]
+                    rng.shuffle(groups)
+                    if rest and rng.random() < 0.5:
+                        groups.append(sorted(rng.sample(rest, rng.randint(1, len(rest)))))
+                    mode = rng.choice(['none', 'rest', 'any'])
+                    pool = rest if mode == 'rest' else (list(range(n)) if mode == 'any' else [])
+                    d['groups'] = groups
+                    d['crvs'] = sorted(rng.sample(pool, rng.randint(1, min(2, len(pool))))) if pool else []
+                    d['k'] = rng.randint(1, len(groups)) if name == 'cohesion' else 0
+                    d['shape'] = shape
+                    yield d
 
     def rand_case(self, rng):
         n = rng.randint(2, 5)
@@ -214,7 +255,10 @@ class C05(object):
 
     def rand_shape(self, rng, n, name):
         vars_ = list(range(n))
-        if name in DISJOINT and not (name == 'cohesion' and rng.random() < 0.5):   # cohesion also takes overlapping groups
+        # every measure but CAEKL and entropy (which reject a variable named twice) also takes groups that share variables, repeat
+        # or contain one another, and conditioning variables that are also in the groups: the defining combination is
+        # the same expression in the entropies of the unions
+        if name in DISJOINT and not (name in OVERLAP_TOO and rng.random() < 0.5):
             rng.shuffle(vars_)
             ng = rng.randint(1 if name == 'entropy' else 2, min(n, 4)) if n >= 2 else 1
             cut = sorted(rng.sample(range(1, n), ng - 1)) if ng > 1 else []
@@ -229,7 +273,7 @@ class C05(object):
                     rest += p
             crvs = sorted(rng.sample(rest, rng.randint(0, len(rest)))) if rest else []
         else:
-            ng = rng.randint(1, 4) if name != 'cohesion' else rng.randint(2, 4)
+            ng = rng.randint(1, 4) if name not in DISJOINT else rng.randint(2, 4)
             groups = [sorted(rng.sample(vars_, rng.randint(1, min(3, n)))) for _ in range(ng)]
             crvs = sorted(rng.sample(vars_, rng.randint(0, min(2, n))))
         return groups, crvs
@@ -309,6 +353,13 @@ class C05(object):
                       'byname=%s' % case['byname'], 'zeros=%s' % any(Fraction(p) == 0 for p in case['pmf']),
                       'rvs=%s' % (rvs_default or 'given'), 'crvs=%s' % (crvs_default or 'given'),
                       'rv_mode=%s' % ('left out' if implicit else 'given'), 'base=%s' % base]
+        # how the groups relate: sharing variables / two different sub-lists of groups with the same union
+        gsets = [frozenset(g) for g in groups]
+        share = sum(len(g) for g in gsets) != len(frozenset().union(*gsets)) if gsets else False
+        coincide = any(len(set(frozenset().union(*s) for s in itertools.combinations(gsets, kk)))
+                       < math.comb(len(gsets), kk) for kk in range(1, len(gsets)))
+        r.features += ['groups-share=%s' % share, 'unions-coincide=%s' % coincide,
+                       'crvs-in-groups=%s' % bool(gsets and set(crvs) & frozenset().union(*gsets))]
         d = gen.build(case)
         names = case.get('names')
         f = get_func(dit, name)
@@ -395,7 +446,11 @@ class C05(object):
             fails = '%s is not finite: %r' % (name, val)
         elif abs(val - ref) > 1e-8:
             fails = '%s = %r but its defining entropy combination gives %r' % (name, val, ref)
-        elif name in ('total_correlation', 'dual_total_correlation', 'caekl_mutual_information') and val < -1e-9:
+        elif (name in ('total_correlation', 'dual_total_correlation', 'caekl_mutual_information') and val < -1e-9
+              and not (name == 'dual_total_correlation' and share)):
+            # (the binding information of groups that share variables is not a sum of conditional mutual informations
+            # and may be negative - e.g. [[0,1,2],[0],[1,2]] gives H(0) + H(1,2) - 2 H(0,1,2); the statement's sign
+            # claim is about proper groupings.  Total correlation stays >= 0 by subadditivity whatever the groups.)
             fails = '%s is negative: %r' % (name, val)
         elif len(groups) == 2 and name in ('coinformation', 'total_correlation', 'dual_total_correlation', 'caekl_mutual_information'):
             X, Y, Z = set(groups[0]), set(groups[1]), set(crvs)
